@@ -519,7 +519,7 @@ def registry_coverage(st: core.Stats):
 
 def run(ctx: core.Context) -> int:
     only = getattr(ctx, 'only', None)
-    beds = [b for b in BED_ORDER if not only or b in only]
+    beds = [b for b in BED_ORDER if not only or b in only] if not only or only != {'dialects'} else []
     reg = ctx.sub('registry')
     try:
         registry_coverage(reg)
@@ -569,6 +569,11 @@ def run(ctx: core.Context) -> int:
         for (b, *_), st in zip(pair_items, core.pmap(work, pair_items, ctx.jobs)):
             ctx.sub('pairs:' + b).merge(st)
 
+    if not only or 'dialects' in only:
+        for r in core.pmap(w_dialect, [[d] for d in DIALECTS], ctx.jobs):
+            ctx.sub('controller_dialects').merge(r)
+        ctx.log('controller_dialects:', ctx.sub('controller_dialects').summary())
+
     extra = {}
     if ctx.quick:
         for b in beds:
@@ -593,6 +598,9 @@ def run(ctx: core.Context) -> int:
 
 def replay(v: core.Violation) -> list[str]:
     case = v.case
+    if 'dialect' in case:
+        r = run_dialect(case['dialect'])
+        return [r[1]] if r and r[0] == v.check else []
     frames = dec_frames(case['frames'])
     r = run_sequence(case['bed'], case.get('seed', 0), frames)
     if r is None:
@@ -602,3 +610,71 @@ def replay(v: core.Violation) -> list[str]:
         return []
     kind = info['kind']
     return [f'{case["bed"]}: {kind} at {info.get("site")}: {info["reason"]}']
+
+
+# ---------------------------------------------------------------------------
+# controller dialects: a controller that is well-formed but UNUSUAL in how it reports completed packets / command
+# credits (every genuine event of the victim's controller is rewritten on its way to the host), while the peer keeps
+# sending well-formed requests: every one of 80 reference requests must be answered (more than the 64 ACL buffers, so
+# a buffer slot leaked per event would show)
+# ---------------------------------------------------------------------------
+DIALECTS = ['nocp_unknown_handle_first', 'nocp_unknown_handle_last', 'nocp_zero_count_entry_first', 'nocp_extra_empty_event', 'credit_event_after_every_response']
+
+
+def run_dialect(name, seed=0, probes=80):
+    """-> None | (kind, message)"""
+    import types
+
+    from bumble import hci
+
+    bed = B.BEDS['hci_le'](seed)
+    try:
+        host = bed.vic.host
+        real = host.on_packet
+        live = bed.v_handle
+
+        def on_packet(_h, packet):
+            b = bytes(packet)
+            out = [b]
+            try:
+                if len(b) > 3 and b[0] == 0x04 and b[1] == 0x13:
+                    ev = hci.HCI_Packet.from_bytes(b)
+                    hs, ns = list(ev.connection_handles), list(ev.num_completed_packets)
+                    if name == 'nocp_unknown_handle_first':
+                        hs, ns = [0x0EEE] + hs, [1] + ns
+                    elif name == 'nocp_unknown_handle_last':
+                        hs, ns = hs + [0x0EEE], ns + [1]
+                    elif name == 'nocp_zero_count_entry_first':
+                        hs, ns = [live] + hs, [0] + ns
+                    if name == 'nocp_extra_empty_event':
+                        out = [bytes(hci.HCI_Number_Of_Completed_Packets_Event(connection_handles=[], num_completed_packets=[])), b]
+                    else:
+                        out = [bytes(hci.HCI_Number_Of_Completed_Packets_Event(connection_handles=hs, num_completed_packets=ns))]
+                elif name == 'credit_event_after_every_response' and len(b) > 5 and b[0] == 0x04 and b[1] in (0x0E, 0x0F):
+                    out = [b, bytes([0x04, 0x0E, 0x03, 0x01, 0x00, 0x00])]
+            except Exception:
+                out = [b]
+            for p in out:
+                real(p)
+
+        host.on_packet = types.MethodType(on_packet, host)
+        for i in range(probes):
+            r, pout = bed.probe_guarded()
+            if r is not None:
+                r2, _ = bed.probe_guarded()
+                return ('dialect_probe_' + r, f'controller dialect {name}: reference request #{i} (HCI command + ATT request over the link): {r}; repeated: {r2}; escaped exceptions {pout.excs[:2]}')
+            if not bed.alive():
+                return ('dialect_connection_lost', f'controller dialect {name}: the connection was dropped after {i} reference requests')
+        return None
+    finally:
+        bed.close()
+
+
+def w_dialect(names):
+    st = core.Stats('controller_dialects')
+    for name in names:
+        r = run_dialect(name)
+        st.case(name, {'dialect': name, 'reference_requests': 80} if not st.samples else None)
+        if r:
+            st.violation(r[0], {'bed': 'hci_le', 'dialect': name, 'kind': r[0]}, r[1], {'dialect': name})
+    return st
